@@ -1,30 +1,788 @@
 package main
 
-// Parts of the subset added after the core: maps, interfaces, closures, defer/recover, goroutines.
+// Parts of the subset beyond scalars and strings: nested structs, interfaces, maps,
+// closures, function values (callback contracts), defer/recover, go statements.
 
 import (
+	"fmt"
+	"go/constant"
+	"go/types"
+	"sort"
+	"strings"
+
 	"golang.org/x/tools/go/ssa"
 )
 
-func (bs *blockState) mapLookup(x *ssa.Lookup)          { unsupp("map lookup") }
-func (bs *blockState) rangeMap(x *ssa.Range)             { unsupp("range over map") }
-func (bs *blockState) nextMap(x *ssa.Next)               { unsupp("map iteration") }
-func (bs *blockState) makeInterface(x *ssa.MakeInterface) { unsupp("MakeInterface") }
-func (bs *blockState) typeAssert(x *ssa.TypeAssert)       { unsupp("TypeAssert") }
-func (bs *blockState) makeMap(x *ssa.MakeMap)             { unsupp("MakeMap") }
-func (bs *blockState) mapUpdate(x *ssa.MapUpdate)         { unsupp("MapUpdate") }
-func (bs *blockState) mapDelete(x *ssa.Call)              { unsupp("delete") }
-func (bs *blockState) makeClosure(x *ssa.MakeClosure)     { unsupp("MakeClosure") }
-func (bs *blockState) deferInstr(x *ssa.Defer)            { unsupp("defer") }
-func (bs *blockState) goInstr(x *ssa.Go)                  { unsupp("go statement") }
-func (bs *blockState) runDefers(x *ssa.RunDefers) {
-	if len(bs.e.defers) > 0 {
-		unsupp("rundefers with pending defers")
+// ---------- interior pointers of nested structs ----------
+
+// subRef is the reference of the k-th field (a struct by value) nested in object r.
+// Injective for 0 <= k < 64 and disjoint from nil (0) and allocated refs (> 0).
+func subRef(r string, k int) string {
+	return fmt.Sprintf("(sub %s %d)", r, k)
+}
+
+// ---------- interfaces ----------
+
+var typeTags = map[string]int{}
+var typeTagTypes = map[int]types.Type{}
+
+func typeTag(t types.Type) string {
+	k := t.String()
+	if id, ok := typeTags[k]; ok {
+		return fmt.Sprint(id)
+	}
+	id := len(typeTags) + 1
+	typeTags[k] = id
+	typeTagTypes[id] = t
+	return fmt.Sprint(id)
+}
+
+func pointerShaped(t types.Type) bool {
+	switch t.Underlying().(type) {
+	case *types.Pointer, *types.Map, *types.Chan, *types.Signature:
+		return true
+	}
+	if b, ok := t.Underlying().(*types.Basic); ok && b.Kind() == types.UnsafePointer {
+		return true
+	}
+	return false
+}
+
+func boxKey(t types.Type, j int) string { return fmt.Sprintf("m:box.%s:%d", typeKey(t), j) }
+
+func (e *Enc) boxLoad(st *State, t types.Type, ref string) Val {
+	v := Val{T: t}
+	for j, so := range flatten(t) {
+		h := e.heapKey(st, boxKey(t, j), "(Array Int "+so+")")
+		v.C = append(v.C, app("select", h, ref))
+	}
+	return v
+}
+
+func (bs *blockState) makeIface(t types.Type, v Val, name string) (tag, payload string) {
+	e := bs.e
+	tag = typeTag(t)
+	if pointerShaped(t) {
+		return tag, v.C[0]
+	}
+	r := e.allocRef(bs.st, bs.g, name)
+	for j, so := range flatten(t) {
+		k := boxKey(t, j)
+		h := e.heapKey(bs.st, k, "(Array Int "+so+")")
+		nh := e.fresh("BOX."+typeKey(t), "(Array Int "+so+")")
+		e.def(eq(nh, app("store", h, r, v.C[j])))
+		bs.st.m[k] = nh
+	}
+	return tag, r
+}
+
+func (bs *blockState) makeInterface(x *ssa.MakeInterface) {
+	v := bs.val(x.X)
+	tag, pl := bs.makeIface(x.X.Type(), v, x.Name())
+	bs.e.regs[x] = Val{x.Type(), []string{tag, pl}}
+}
+
+// implementsPred: does the dynamic type with this tag implement iface?
+func (e *Enc) implementsPred(iface types.Type, tag string) string {
+	it, ok := iface.Underlying().(*types.Interface)
+	if !ok {
+		unsupp("type assertion to %s", iface)
+	}
+	if it.NumMethods() == 0 {
+		return not(eq(tag, "0"))
+	}
+	name := "impl." + sanitize(typeKey(iface))
+	if _, ok := e.sorts["decl:"+name]; !ok {
+		e.sorts["decl:"+name] = "fun"
+		e.items = append(e.items, Item{Kind: IDecl, Name: name, Term: "(Int) Bool", Class: "fun"})
+		e.def(not(app(name, "0")))
+	}
+	e.implUsed[name] = iface
+	return app(name, tag)
+}
+
+func (bs *blockState) typeAssert(x *ssa.TypeAssert) {
+	e := bs.e
+	v := bs.val(x.X)
+	tag, pl := v.C[0], v.C[1]
+	var ok string
+	var res Val
+	if _, isI := x.AssertedType.Underlying().(*types.Interface); isI {
+		ok = e.implementsPred(x.AssertedType, tag)
+		res = Val{x.AssertedType, []string{tag, pl}}
+	} else {
+		ok = eq(tag, typeTag(x.AssertedType))
+		if pointerShaped(x.AssertedType) {
+			res = Val{x.AssertedType, []string{pl}}
+		} else {
+			res = e.boxLoad(bs.st, x.AssertedType, pl)
+		}
+	}
+	if x.CommaOk {
+		okc := e.fresh(x.Name()+".ok", SBool)
+		e.def(eq(okc, ok))
+		z := zeroVal(x.AssertedType)
+		out := Val{T: x.Type()}
+		for j := range res.C {
+			out.C = append(out.C, ite(okc, res.C[j], z.C[j]))
+		}
+		out.C = append(out.C, okc)
+		bs.setReg(x, out)
+		return
+	}
+	// single-value form panics on failure
+	bs.assertOrRaise(fmt.Sprintf("typeassert.%d", e.ordinal("typeassert")), ok, "type assertion may fail", x)
+	e.regs[x] = res
+}
+
+// assertOrRaise: a run-time check. In a function that is allowed to panic the failing
+// case becomes an exceptional edge; otherwise it is a proof obligation.
+func (bs *blockState) assertOrRaise(name, cond, why string, ins ssa.Instruction) {
+	bs.assertG(name, "nil", cond, why, ins)
+}
+
+// ---------- nested struct fields ----------
+
+func (e *Enc) loadFieldDeep(st *State, stT types.Type, fidx int, ref string) Val {
+	s := stT.Underlying().(*types.Struct)
+	ft := s.Field(fidx).Type()
+	if _, ok := ft.Underlying().(*types.Struct); ok {
+		return e.loadPtr(st, ft, subRef(ref, fidx))
+	}
+	return e.loadFieldFlat(st, stT, fidx, ref)
+}
+
+func (e *Enc) storeFieldDeep(st *State, stT types.Type, fidx int, ref string, v Val) {
+	s := stT.Underlying().(*types.Struct)
+	ft := s.Field(fidx).Type()
+	if _, ok := ft.Underlying().(*types.Struct); ok {
+		e.storePtr(st, ft, subRef(ref, fidx), v)
+		return
+	}
+	e.storeFieldFlat(st, stT, fidx, ref, v)
+}
+
+// ---------- maps ----------
+
+func mapKeyId(e *Enc, kt types.Type, k Val) string {
+	if isString(kt) {
+		e.strKeys = append(e.strKeys, k)
+		return app("strkey", k.C[0], k.C[1], k.C[2])
+	}
+	if len(k.C) == 1 {
+		return k.C[0]
+	}
+	unsupp("map key type %s", kt)
+	return ""
+}
+
+func mapHasKey(mt types.Type) string       { return "map." + typeKey(mt) + ":has" }
+func mapValKey(mt types.Type, j int) string { return fmt.Sprintf("map.%s:val:%d", typeKey(mt), j) }
+
+func (e *Enc) mapHas(st *State, mt types.Type) string {
+	return e.heapKey(st, mapHasKey(mt), "(Array Int (Array Int Bool))")
+}
+
+func (e *Enc) mapGet(st *State, mt *types.Map, m, kid string) (has string, v Val) {
+	h := e.mapHas(st, mt)
+	has = and(not(eq(m, "0")), app("select", app("select", h, m), kid))
+	v = Val{T: mt.Elem()}
+	z := zeroVal(mt.Elem())
+	for j, so := range flatten(mt.Elem()) {
+		vh := e.heapKey(st, mapValKey(mt, j), "(Array Int (Array Int "+so+"))")
+		v.C = append(v.C, ite(has, app("select", app("select", vh, m), kid), z.C[j]))
+	}
+	return
+}
+
+func (bs *blockState) mapLookup(x *ssa.Lookup) {
+	e := bs.e
+	mt := x.X.Type().Underlying().(*types.Map)
+	m := bs.val(x.X).C[0]
+	kid := mapKeyId(e, mt.Key(), bs.val(x.Index))
+	has, v := e.mapGet(bs.st, mt, m, kid)
+	if x.CommaOk {
+		v.C = append(v.C, has)
+		v.T = x.Type()
+	}
+	bs.setReg(x, v)
+}
+
+func (bs *blockState) makeMap(x *ssa.MakeMap) {
+	e := bs.e
+	mt := x.Type().Underlying().(*types.Map)
+	r := e.allocRef(bs.st, bs.g, x.Name())
+	hk := mapHasKey(mt)
+	h := e.mapHas(bs.st, mt)
+	nh := e.fresh("MAPHAS", "(Array Int (Array Int Bool))")
+	e.def(eq(nh, app("store", h, r, "((as const (Array Int Bool)) false)")))
+	bs.st.m[hk] = nh
+	c := e.heapKey(bs.st, "map.card", "(Array Int Int)")
+	nc := e.fresh("MAPCARD", "(Array Int Int)")
+	e.def(eq(nc, app("store", c, r, "0")))
+	bs.st.m["map.card"] = nc
+	e.regs[x] = Val{x.Type(), []string{r}}
+}
+
+func (bs *blockState) mapUpdate(x *ssa.MapUpdate) {
+	e := bs.e
+	mt := x.Map.Type().Underlying().(*types.Map)
+	m := bs.val(x.Map).C[0]
+	bs.assertG(fmt.Sprintf("nilmap.%d", e.ordinal("nilmap")), "nil", not(eq(m, "0")), "assignment to entry in nil map", x)
+	kid := mapKeyId(e, mt.Key(), bs.val(x.Key))
+	v := bs.val(x.Value)
+	hk := mapHasKey(mt)
+	h := e.mapHas(bs.st, mt)
+	had := app("select", app("select", h, m), kid)
+	c := e.heapKey(bs.st, "map.card", "(Array Int Int)")
+	nc := e.fresh("MAPCARD", "(Array Int Int)")
+	e.def(eq(nc, app("store", c, m, ite(had, app("select", c, m), add(app("select", c, m), "1")))))
+	bs.st.m["map.card"] = nc
+	nh := e.fresh("MAPHAS", "(Array Int (Array Int Bool))")
+	e.def(eq(nh, app("store", h, m, app("store", app("select", h, m), kid, "true"))))
+	bs.st.m[hk] = nh
+	for j, so := range flatten(mt.Elem()) {
+		vk := mapValKey(mt, j)
+		vh := e.heapKey(bs.st, vk, "(Array Int (Array Int "+so+"))")
+		nv := e.fresh("MAPVAL", "(Array Int (Array Int "+so+"))")
+		e.def(eq(nv, app("store", vh, m, app("store", app("select", vh, m), kid, v.C[j]))))
+		bs.st.m[vk] = nv
 	}
 }
-func (bs *blockState) raiseWithDefers(pv Val, why string, ins ssa.Instruction) { unsupp("panic with defers") }
-func (bs *blockState) recv(x *ssa.UnOp)                                        { unsupp("channel receive") }
-func (bs *blockState) recoverBuiltin(x *ssa.Call)                              { unsupp("recover") }
-func (bs *blockState) invoke(x *ssa.Call)                                      { unsupp("interface method call") }
-func (bs *blockState) callClosure(x *ssa.Call, f *ssa.MakeClosure)             { unsupp("closure call") }
-func (bs *blockState) callFuncValue(x *ssa.Call)                               { unsupp("call of function value") }
+
+func (bs *blockState) mapDelete(x *ssa.Call) {
+	e := bs.e
+	mt := x.Call.Args[0].Type().Underlying().(*types.Map)
+	m := bs.val(x.Call.Args[0]).C[0]
+	kid := mapKeyId(e, mt.Key(), bs.val(x.Call.Args[1]))
+	hk := mapHasKey(mt)
+	h := e.mapHas(bs.st, mt)
+	had := and(not(eq(m, "0")), app("select", app("select", h, m), kid))
+	c := e.heapKey(bs.st, "map.card", "(Array Int Int)")
+	nc := e.fresh("MAPCARD", "(Array Int Int)")
+	e.def(eq(nc, ite(had, app("store", c, m, sub(app("select", c, m), "1")), c)))
+	bs.st.m["map.card"] = nc
+	nh := e.fresh("MAPHAS", "(Array Int (Array Int Bool))")
+	e.def(eq(nh, ite(eq(m, "0"), h, app("store", h, m, app("store", app("select", h, m), kid, "false")))))
+	bs.st.m[hk] = nh
+}
+
+// range over a map: arbitrary enumeration with a ghost `seen` set.
+func (bs *blockState) rangeMap(x *ssa.Range) {
+	e := bs.e
+	k := "it:" + x.Name()
+	e.sorts[k] = "(Array Int Bool)"
+	e.sorts[k+":n"] = SInt
+	bs.st.m[k] = "((as const (Array Int Bool)) false)"
+	bs.st.m[k+":n"] = "0"
+	e.iterMap[x] = bs.val(x.X)
+}
+
+func (bs *blockState) nextMap(x *ssa.Next) {
+	e := bs.e
+	rg := x.Iter.(*ssa.Range)
+	mt := rg.X.Type().Underlying().(*types.Map)
+	m := e.iterMap[rg].C[0]
+	k := "it:" + rg.Name()
+	seen, n := bs.st.m[k], bs.st.m[k+":n"]
+	card := ite(eq(m, "0"), "0", app("select", e.heapKey(bs.st, "map.card", "(Array Int Int)"), m))
+	ok := e.fresh(x.Name()+".ok", SBool)
+	e.def(eq(ok, app("<", n, card)))
+	key := e.freshVal(x.Name()+".k", mt.Key())
+	e.assume(bs.g, e.typeFacts(key))
+	kid := mapKeyId(e, mt.Key(), key)
+	has, v := e.mapGet(bs.st, mt, m, kid)
+	e.def(imp(ok, and(has, not(app("select", seen, kid)))))
+	ns := e.fresh("seen", "(Array Int Bool)")
+	e.def(eq(ns, ite(ok, app("store", seen, kid, "true"), seen)))
+	nn := e.fresh("seen.n", SInt)
+	e.def(eq(nn, ite(ok, add(n, "1"), n)))
+	bs.st.m[k], bs.st.m[k+":n"] = ns, nn
+	out := Val{T: x.Type(), C: []string{ok}}
+	out.C = append(out.C, key.C...)
+	out.C = append(out.C, v.C...)
+	e.regs[x] = out
+}
+
+// ---------- closures, function values, callbacks ----------
+
+func (bs *blockState) makeClosure(x *ssa.MakeClosure) {
+	e := bs.e
+	e.closures[x] = x
+	// the closure value itself: a fresh non-nil function reference
+	r := e.fresh("clo."+x.Name(), SInt)
+	e.def(app("<", r, "0"))
+	e.regs[x] = Val{x.Type(), []string{r}}
+	e.closureOf[r] = x
+}
+
+// calleeDesignator names the function value being called: the field or variable it was read from.
+func calleeDesignator(v ssa.Value) string {
+	switch x := v.(type) {
+	case *ssa.UnOp:
+		switch a := x.X.(type) {
+		case *ssa.Alloc:
+			return a.Comment
+		case *ssa.FieldAddr:
+			st := a.X.Type().Underlying().(*types.Pointer).Elem().Underlying().(*types.Struct)
+			return st.Field(a.Field).Name()
+		case *ssa.IndexAddr:
+			return calleeDesignator(a.X) + "[]"
+		case *ssa.FreeVar:
+			return a.Name()
+		case *ssa.Global:
+			return a.Name()
+		}
+	case *ssa.Field:
+		st := x.X.Type().Underlying().(*types.Struct)
+		return st.Field(x.Field).Name()
+	case *ssa.Parameter:
+		return x.Name()
+	case *ssa.Extract:
+		return calleeDesignator(x.Tuple)
+	case *ssa.Lookup:
+		return calleeDesignator(x.X) + "[]"
+	case *ssa.Phi:
+		return x.Comment
+	case *ssa.FreeVar:
+		return x.Name()
+	case *ssa.TypeAssert:
+		return calleeDesignator(x.X)
+	case *ssa.ChangeType:
+		return calleeDesignator(x.X)
+	case *ssa.Call:
+		if f := x.Call.StaticCallee(); f != nil {
+			return f.Name() + "()"
+		}
+	}
+	return v.Name()
+}
+
+func (bs *blockState) callFuncValue(x *ssa.Call) {
+	e := bs.e
+	fv := bs.val(x.Call.Value)
+	// closure created in this function and called directly?
+	if mc, ok := e.closureOf[fv.C[0]]; ok {
+		bs.callClosure(x, mc)
+		return
+	}
+	des := calleeDesignator(x.Call.Value)
+	var cbName string
+	if e.spec != nil {
+		cbName = e.spec.Callbacks[des]
+	}
+	if cbName == "" {
+		// named function type with a default callback contract?
+		if n, ok := x.Call.Value.Type().(*types.Named); ok {
+			cbName = n.Obj().Name()
+		}
+	}
+	spec := e.W.Specs.Funcs["callback."+cbName]
+	if spec == nil {
+		unsupp("call of function value %q: no callback contract (callback %s <name>)", des, des)
+	}
+	bs.assertG(fmt.Sprintf("nilfunc.%d", e.ordinal("nilfunc")), "nil", not(eq(fv.C[0], "0")), "call of nil function "+des, x)
+	var args []Val
+	for _, a := range x.Call.Args {
+		args = append(args, bs.val(a))
+	}
+	// callback contracts may name the function value itself as first parameter "self"
+	if len(spec.Params) == len(args)+1 && spec.Params[0].Name == "self" {
+		args = append([]Val{fv}, args...)
+	}
+	var rt types.Type
+	if x.Type() != nil && !isEmptyTuple(x.Type()) {
+		rt = x.Type()
+	}
+	res := bs.applyContract(spec, "callback."+cbName, args, x, rt)
+	if rt != nil {
+		e.regs[x] = res
+	}
+}
+
+func isEmptyTuple(t types.Type) bool {
+	tup, ok := t.(*types.Tuple)
+	return ok && tup.Len() == 0
+}
+
+// callClosure: a closure defined in this function. Its anonymous function is verified on its
+// own against its contract; here the contract is applied with the captured variables bound.
+func (bs *blockState) callClosure(x *ssa.Call, mc *ssa.MakeClosure) {
+	var args []Val
+	for _, a := range x.Call.Args {
+		args = append(args, bs.val(a))
+	}
+	var rt types.Type
+	if x.Type() != nil && !isEmptyTuple(x.Type()) {
+		rt = x.Type()
+	}
+	res := bs.applyClosure(mc, args, x, rt, nil)
+	if rt != nil {
+		bs.e.regs[x] = res
+	}
+}
+
+// applyClosure applies the contract of an anonymous function at a call / defer site.
+// Free variables are visible in the contract under their source names, with their current values.
+func (bs *blockState) applyClosure(mc *ssa.MakeClosure, args []Val, ins ssa.Instruction, rt types.Type, recovered *Val) Val {
+	e := bs.e
+	fn := mc.Fn.(*ssa.Function)
+	key := funcKey(fn)
+	spec := e.W.Specs.Funcs[key]
+	if spec == nil {
+		unsupp("closure %s has no contract", key)
+	}
+	extra := map[string]lvalueOrVal{}
+	for i, fv := range fn.FreeVars {
+		b := mc.Bindings[i]
+		lv := bs.lval(b)
+		extra[fv.Name()] = lvalueOrVal{lv: &lv}
+	}
+	if recovered != nil {
+		extra["recovered"] = lvalueOrVal{v: recovered}
+	}
+	return bs.applyContractX(spec, key, args, ins, rt, extra)
+}
+
+type lvalueOrVal struct {
+	lv *lvalue
+	v  *Val
+}
+
+// ---------- invoke (interface method calls) ----------
+
+func (bs *blockState) invoke(x *ssa.Call) {
+	e := bs.e
+	c := x.Call
+	recvT := c.Value.Type()
+	var key string
+	if n, ok := recvT.(*types.Named); ok {
+		pkg := ""
+		if n.Obj().Pkg() != nil {
+			pkg = n.Obj().Pkg().Name() + "."
+		}
+		key = pkg + n.Obj().Name() + "." + c.Method.Name()
+	} else {
+		key = sanitize(recvT.String()) + "." + c.Method.Name()
+	}
+	spec := e.W.Specs.Funcs[key]
+	if spec == nil {
+		unsupp("interface method call %s: no contract", key)
+	}
+	recv := bs.val(c.Value)
+	bs.assertG(fmt.Sprintf("nil.%d", e.ordinal("nil")), "nil", not(eq(recv.C[0], "0")), "method call on nil interface", x)
+	args := []Val{recv}
+	for _, a := range c.Args {
+		args = append(args, bs.val(a))
+	}
+	var rt types.Type
+	if x.Type() != nil && !isEmptyTuple(x.Type()) {
+		rt = x.Type()
+	}
+	res := bs.applyContract(spec, key, args, x, rt)
+	if rt != nil {
+		e.regs[x] = res
+	}
+}
+
+// ---------- defer / recover ----------
+
+func (bs *blockState) deferInstr(x *ssa.Defer) {
+	e := bs.e
+	idx := len(e.defers)
+	for i, d := range e.defers {
+		if d == x {
+			idx = i
+		}
+	}
+	if idx == len(e.defers) {
+		e.defers = append(e.defers, x)
+	}
+	k := fmt.Sprintf("defer:%d", idx)
+	e.sorts[k] = SBool
+	bs.st.m[k] = "true"
+}
+
+func (e *Enc) recovers(fn *ssa.Function) bool {
+	for _, b := range fn.Blocks {
+		for _, ins := range b.Instrs {
+			if c, ok := ins.(*ssa.Call); ok {
+				if bi, ok := c.Call.Value.(*ssa.Builtin); ok && bi.Name() == "recover" {
+					return true
+				}
+			}
+		}
+	}
+	return false
+}
+
+// runDeferred executes the registered deferred calls in LIFO order. pv == nil: normal return.
+// Returns whether the panic (if any) was recovered.
+func (bs *blockState) runDeferred(ins ssa.Instruction, pv *Val) (recovered bool) {
+	e := bs.e
+	for i := len(e.defers) - 1; i >= 0; i-- {
+		d := e.defers[i]
+		k := fmt.Sprintf("defer:%d", i)
+		flag, ok := bs.st.m[k]
+		if !ok || flag == "false" {
+			continue
+		}
+		if flag != "true" {
+			unsupp("conditionally registered defer")
+		}
+		bs.st.m[k] = "false"
+		c := d.Call
+		var args []Val
+		for _, a := range c.Args {
+			args = append(args, bs.val(a))
+		}
+		var rec *Val
+		nilI := zeroVal(types.NewInterfaceType(nil, nil))
+		switch f := c.Value.(type) {
+		case *ssa.MakeClosure:
+			fn := f.Fn.(*ssa.Function)
+			if e.recovers(fn) {
+				if pv != nil && !recovered {
+					rec = pv
+					recovered = true
+				} else {
+					rec = &nilI
+				}
+			}
+			bs.applyClosure(f, args, ins, nil, rec)
+		case *ssa.Function:
+			if c.IsInvoke() {
+				unsupp("deferred interface call")
+			}
+			bs.callStatic(f, args, ins, nil)
+		default:
+			if c.IsInvoke() {
+				unsupp("deferred interface call")
+			}
+			unsupp("deferred call of function value")
+		}
+		if bs.dead {
+			return
+		}
+	}
+	return
+}
+
+func (bs *blockState) runDefers(x *ssa.RunDefers) {
+	if len(bs.e.defers) == 0 {
+		return
+	}
+	bs.runDeferred(x, nil)
+}
+
+// raiseWithDefers: a panic inside a function that has deferred calls.
+func (bs *blockState) raiseWithDefers(pv Val, why string, ins ssa.Instruction) {
+	e := bs.e
+	if e.inRaise {
+		unsupp("nested panic handling")
+	}
+	e.inRaise = true
+	defer func() { e.inRaise = false }()
+	rec := bs.runDeferred(ins, &pv)
+	if bs.dead {
+		return
+	}
+	if rec {
+		// execution resumes at the recover block: the function returns its named results
+		if e.fn.Recover != nil {
+			e.addEdgeRaw(e.fn.Recover, bs.g, bs.st, bs.b)
+			return
+		}
+		var rets []Val
+		res := e.fn.Signature.Results()
+		for i := 0; i < res.Len(); i++ {
+			rets = append(rets, zeroVal(res.At(i).Type()))
+		}
+		e.exits = append(e.exits, edge{guard: bs.g, st: bs.st.clone(), rets: rets, from: bs.b})
+		return
+	}
+	if e.spec == nil || !e.spec.MayPanic {
+		bs.assertG(fmt.Sprintf("nopanic.%d", e.ordinal("nopanic")), "xpost", "false", why+" reachable but contract has no ensures_on_panic", ins)
+	} else {
+		e.panics = append(e.panics, edge{guard: bs.g, st: bs.st.clone(), pv: pv, from: bs.b})
+	}
+}
+
+func (e *Enc) addEdgeRaw(to *ssa.BasicBlock, guard string, st *State, from *ssa.BasicBlock) {
+	e.inEdges[to] = append(e.inEdges[to], edge{guard: guard, st: st.clone(), from: from})
+	e.lateBlocks[to] = true
+}
+
+func (bs *blockState) recoverBuiltin(x *ssa.Call) {
+	e := bs.e
+	v, ok := e.paramVals["recovered"]
+	if !ok {
+		unsupp("recover outside a deferred closure under contract")
+	}
+	e.regs[x] = Val{x.Type(), v.C}
+}
+
+// ---------- go statements, channels ----------
+
+func (bs *blockState) goInstr(x *ssa.Go) {
+	// the spawned function is verified on its own as a thread entry; the spawn has no
+	// sequential effect. Its precondition must hold here.
+	e := bs.e
+	c := x.Call
+	if f, ok := c.Value.(*ssa.Function); ok && !c.IsInvoke() {
+		spec := e.W.Specs.Funcs[funcKey(f)]
+		if spec == nil {
+			unsupp("go %s: no contract", funcKey(f))
+		}
+		vars := map[string]Val{}
+		for i, p := range spec.Params {
+			if i < len(c.Args) {
+				vars[p.Name] = bs.val(c.Args[i])
+			}
+		}
+		pre := &Ctx{E: e, Vars: vars, St: bs.st, where: e.key + " go " + f.Name()}
+		for i, r := range spec.Requires {
+			bs.assertG(fmt.Sprintf("go.%s.pre.%s", f.Name(), clauseName(r, i)), "pre", pre.boolT(r.Expr), r.Src, x)
+		}
+		return
+	}
+	unsupp("go statement with dynamic callee")
+}
+
+func (bs *blockState) recv(x *ssa.UnOp) { unsupp("channel receive") }
+
+// ---------- varargs arrays ----------
+
+func isArrayPtr(t types.Type) (*types.Array, bool) {
+	p, ok := t.Underlying().(*types.Pointer)
+	if !ok {
+		return nil, false
+	}
+	a, ok := p.Elem().Underlying().(*types.Array)
+	return a, ok
+}
+
+// strkey axioms: literal keys are pairwise distinct from / equal to other keys by content.
+func (e *Enc) strKeyAxioms() string {
+	var b strings.Builder
+	if len(e.strKeys) == 0 {
+		return ""
+	}
+	seen := map[string]bool{}
+	var ks []Val
+	for _, k := range e.strKeys {
+		id := strings.Join(k.C, " ")
+		if !seen[id] {
+			seen[id] = true
+			ks = append(ks, k)
+		}
+	}
+	sort.Slice(ks, func(i, j int) bool { return strings.Join(ks[i].C, " ") < strings.Join(ks[j].C, " ") })
+	if len(ks) > 12 {
+		ks = ks[:12]
+	}
+	for i := range ks {
+		for j := i + 1; j < len(ks); j++ {
+			li, oki := constStr(ks[i])
+			lj, okj := constStr(ks[j])
+			a := app("strkey", ks[i].C...)
+			c := app("strkey", ks[j].C...)
+			switch {
+			case oki && okj:
+				if li == lj {
+					fmt.Fprintf(&b, "(assert (= %s %s))\n", a, c)
+				} else {
+					fmt.Fprintf(&b, "(assert (not (= %s %s)))\n", a, c)
+				}
+			case oki:
+				fmt.Fprintf(&b, "(assert (= (= %s %s) %s))\n", a, c, strEqLit(ks[j], li))
+			case okj:
+				fmt.Fprintf(&b, "(assert (= (= %s %s) %s))\n", a, c, strEqLit(ks[i], lj))
+			}
+		}
+	}
+	return b.String()
+}
+
+// constStr recognises a string literal value built by strLit.
+func constStr(v Val) (string, bool) {
+	if v.C[1] != "0" {
+		return "", false
+	}
+	a := v.C[0]
+	var bytes []byte
+	for a != "strk" {
+		// (store X i c)
+		if !strings.HasPrefix(a, "(store ") || !strings.HasSuffix(a, ")") {
+			return "", false
+		}
+		inner := a[7 : len(a)-1]
+		j := strings.LastIndex(inner, " ")
+		c := inner[j+1:]
+		inner = inner[:j]
+		j = strings.LastIndex(inner, " ")
+		a = inner[:j]
+		var ci int
+		fmt.Sscan(c, &ci)
+		bytes = append([]byte{byte(ci)}, bytes...)
+	}
+	return string(bytes), fmt.Sprint(len(bytes)) == v.C[2]
+}
+
+var _ = constant.MakeBool
+
+// typeByName resolves "pkg.Type" / "*pkg.Type" / basic type names against the loaded program.
+func (e *Enc) typeByName(name string) types.Type {
+	ptr := strings.HasPrefix(name, "*")
+	n := strings.TrimPrefix(name, "*")
+	var t types.Type
+	switch n {
+	case "string":
+		t = tString
+	case "int":
+		t = tInt
+	case "bool":
+		t = tBool
+	case "error":
+		t = types.Universe.Lookup("error").Type()
+	default:
+		i := strings.Index(n, ".")
+		if i < 0 {
+			panic(contractMismatch{"type name needs a package: " + name})
+		}
+		for _, p := range e.W.Prog.AllPackages() {
+			if p.Pkg.Name() == n[:i] {
+				if o := p.Pkg.Scope().Lookup(n[i+1:]); o != nil {
+					t = o.Type()
+				}
+			}
+		}
+		if t == nil {
+			panic(contractMismatch{"unknown type " + name})
+		}
+	}
+	if ptr {
+		t = types.NewPointer(t)
+	}
+	return t
+}
+
+func (e *Enc) tagByName(name string) string { return typeTag(e.typeByName(name)) }
+
+// globalByName: package-level variables of the function's package, by name.
+func (e *Enc) globalByName(c *Ctx, name string) (Val, bool) {
+	if e.fn == nil || c.St == nil {
+		return Val{}, false
+	}
+	pkg := e.fn.Pkg
+	if pkg == nil && e.fn.Parent() != nil {
+		pkg = e.fn.Parent().Pkg
+	}
+	if pkg == nil {
+		return Val{}, false
+	}
+	if g, ok := pkg.Members[name].(*ssa.Global); ok {
+		return e.loadGlobal(c.St, g), true
+	}
+	return Val{}, false
+}
